@@ -38,15 +38,14 @@ def evalPolynomial (t : Nat) (poly : List F) (x : F) : F :=
   -- `parts` has `t` slots, the unused ones stay zero
   (parts ++ List.replicate (t - parts.length) 0).foldl (· + ·) 0
 
-/-- `arithmetic.rs: pub fn kate_division(a, b)`; `none` = `a.len() - 1` underflows. -/
-def kateDivision (a : List F) (b : F) : Option (List F) :=
-  if a.isEmpty then none else
+/-- `arithmetic.rs: pub fn kate_division(a, b)` (`q` has `a.len().saturating_sub(1)` entries). -/
+def kateDivision (a : List F) (b : F) : List F :=
   let nb := -b
   -- highest coefficients first, the constant coefficient is never visited
   let st := (a.reverse.take (a.length - 1)).foldl (fun (st : List F × F) r =>
       let lead := r - st.2
       (lead :: st.1, lead * nb)) ([], 0)
-  some st.1
+  st.1
 
 variable [DecidableEq F]
 
